@@ -242,3 +242,69 @@ Example C16_fuel_monotone_nonvacuous :
   process_one_subset ex16_attrs ex16_labels 7 ex16_nodes p =
     Ok [VList [VList [VIdx 10; VIdx 11; VIdx 10]; VList [VIdx 10; VIdx 11]]].
 Proof. vm_compute. repeat split; try reflexivity. discriminate. Qed.
+
+(* ==== paths with descendant steps ========================================================= *)
+From PBK Require Import QueryRefDesc.
+
+(* C16 for EVERY path the parser can produce (separators '/', '.', '>': executable hypothesis
+   wf_path): the query equals the reference evaluation over the nested JSON rendering, where
+   a descendant step is the search of all composite nodes (QueryRef.jdesc: at every level
+   the nodes labelled id that the slice selects continue with the rest of the path, the
+   composite nodes with another label are searched below; replications are enveloped as in
+   a child step and their positions are chosen in the first repetition; members first, then
+   factor / attributes).  Nodes first (each path end: its value index if it has one), values
+   afterwards — a valueless end node is QueryError.  Hypotheses: the tree comes from wiring;
+   the rendering is saturated (executable: no chain of attributes of attributes is cut
+   short by the unfolding depth K); enough fuel, explicit bound in the path length and the
+   nesting depth of the rendering. *)
+Theorem C16_query_eq_reference_descendant : forall ndesc vals links T nodes s ia labels K fuel p,
+  wire ndesc vals links T = Ok (nodes, s) -> wf_path (p_comps p) = true -> saturated (x_attrs s) K = true ->
+  (2 * jheight (JSeqN 0 (render_nodes (x_attrs s) ia vals K nodes)) + 3 * length (p_comps p) + 2 <= fuel)%nat ->
+  process_one_subset (x_attrs s) labels fuel nodes p =
+  eval_json_nodes labels (render_nodes (x_attrs s) ia vals K nodes) (p_comps p).
+Proof. exact query_desc_eq_reference_wired. Qed.
+Print Assumptions C16_query_eq_reference_descendant.
+
+Theorem C16_query_eq_reference_descendant_wf : forall attrs ia vals labels K fuel nodes p,
+  wf_nodes vals nodes -> wf_path (p_comps p) = true -> saturated attrs K = true ->
+  (2 * jheight (JSeqN 0 (render_nodes attrs ia vals K nodes)) + 3 * length (p_comps p) + 2 <= fuel)%nat ->
+  process_one_subset attrs labels fuel nodes p =
+  eval_json_nodes labels (render_nodes attrs ia vals K nodes) (p_comps p).
+Proof. exact query_desc_eq_reference. Qed.
+Print Assumptions C16_query_eq_reference_descendant_wf.
+
+(* what one descendant step of the implementation looks at: the selected matches and the
+   composite nodes with another label, in document order *)
+Theorem C16_step_descendant : forall attrs labels c nodes, (c_sep c =? SEP_DESCEND)%N = true ->
+  filter_for_entities attrs labels nodes c =
+  (let* cutsel := select (label_of labels) c nodes in
+   Ok (filter (fun p => memb (fst p) (map fst cutsel) || is2 attrs labels c p) (enumerate 0 nodes))).
+Proof. exact ffe_descend. Qed.
+Print Assumptions C16_step_descendant.
+
+(* non-vacuity on the wired example above: > A12001[::-1], > 031021 (found as an attribute of
+   attributes inside the replication and as a top-level member), /102002 > 031021[0] *)
+Example C16_query_eq_reference_descendant_nonvacuous :
+  let p3 := mkPath None [mkComp ch_gt ex16_lA (SSlice None None (Some (-1)%Z))] in
+  let p4 := mkPath None [mkComp ch_gt (id6 31021) slice_all] in
+  let p5 := mkPath None [mkComp ch_slash (id6 102002) (SInt 0); mkComp ch_gt (id6 31021) (SInt 0)] in
+  exists nodes s,
+    wire 12 ex16_vals [] ex16_T = Ok (nodes, s) /\
+    saturated (x_attrs s) 2 = true /\ saturated (x_attrs s) 1 = false /\
+    wf_path (p_comps p3) = true /\ wf_path (p_comps p4) = true /\ wf_path (p_comps p5) = true /\
+    simple_path (p_comps p5) = false /\
+    (2 * jheight (JSeqN 0 (render_nodes (x_attrs s) (fun _ => false) ex16_vals 2 nodes)) + 3 * 2 + 2 <= 18)%nat /\
+    process_one_subset (x_attrs s) ex16_wlabels 18 nodes p3 = Ok [VList [VList [VIdx 1; VIdx 3]; VList [VIdx 5; VIdx 7]]] /\
+    eval_json_nodes ex16_wlabels (render_nodes (x_attrs s) (fun _ => false) ex16_vals 2 nodes) (p_comps p3) =
+      Ok [VList [VList [VIdx 1; VIdx 3]; VList [VIdx 5; VIdx 7]]] /\
+    process_one_subset (x_attrs s) ex16_wlabels 18 nodes p4 =
+      Ok [VIdx 0; VList [VList [VIdx 0; VIdx 0]; VList [VIdx 0; VIdx 0]]] /\
+    eval_json_nodes ex16_wlabels (render_nodes (x_attrs s) (fun _ => false) ex16_vals 2 nodes) (p_comps p4) =
+      Ok [VIdx 0; VList [VList [VIdx 0; VIdx 0]; VList [VIdx 0; VIdx 0]]] /\
+    process_one_subset (x_attrs s) ex16_wlabels 18 nodes p5 = Ok [VList [VList [VIdx 0; VIdx 0]; VList [VIdx 0; VIdx 0]]] /\
+    eval_json_nodes ex16_wlabels (render_nodes (x_attrs s) (fun _ => false) ex16_vals 2 nodes) (p_comps p5) =
+      Ok [VList [VList [VIdx 0; VIdx 0]; VList [VIdx 0; VIdx 0]]].
+Proof.
+  cbv zeta. eexists; eexists. split; [vm_compute; reflexivity|].
+  repeat (split; [vm_compute; try reflexivity; repeat constructor|]). vm_compute. reflexivity.
+Qed.
